@@ -667,8 +667,10 @@ class DFA:
 
     def mark_accepting(self, state):
         if isinstance(state, int):
-            self.accepting_states.append(DFState.all_states[state])
-        else:
+            state = DFState.all_states[state]
+        # (a state is accepting or not: listing it twice makes everything that walks the accepting states - chaining finish
+        # actions onto the transitions leading to them, removing a state from them - act twice or only half)
+        if state not in self.accepting_states:
             self.accepting_states.append(state)
 
     def simulate(self, actions):
